@@ -1067,3 +1067,105 @@ Proof.
   - unfold lower. rewrite firstn_map, map_map. apply map_ext. apply to_lower_idem.
   - reflexivity.
 Qed.
+
+(* ------------------------------------------------------------------ *)
+(* Decode then Encode: an accepted string re-encodes to its lower-case  *)
+(* spelling (the twelve checksum symbols are determined by the rest)    *)
+(* ------------------------------------------------------------------ *)
+Fixpoint digits (k : nat) (X : N) : list N :=
+  match k with O => [] | S k' => digits k' (X / 32) ++ [X mod 32] end.
+
+Lemma digits_length k : forall X, length (digits k X) = k.
+Proof. induction k as [|k IH]; intro X; cbn [digits]; [reflexivity|]. rewrite app_length, IH. cbn. lia. Qed.
+
+Lemma pack_digits : forall l, (length l <= 12)%nat -> Forall (fun v => v < 32) l ->
+  polymod_from 0 l < 32 ^ N.of_nat (length l) /\ digits (length l) (polymod_from 0 l) = l.
+Proof.
+  induction l as [|s l IH] using rev_ind; intros L F.
+  - split; reflexivity.
+  - rewrite app_length in *. cbn [length] in *. apply Forall_app in F as [F Fs]. inversion Fs as [|s' t Hs _]; subst.
+    destruct (IH ltac:(lia) F) as [B D].
+    rewrite polymod_from_app. unfold polymod_from at 1 3. cbn [fold_left].
+    assert (B55 : polymod_from 0 l < 2 ^ 55).
+    { eapply N.lt_le_trans; [exact B|]. change 32 with (2 ^ 5). rewrite <- N.pow_mul_r. apply N.pow_le_mono_r; lia. }
+    rewrite step_small by assumption.
+    replace (length l + 1)%nat with (S (length l)) by lia. split.
+    + rewrite Nnat.Nat2N.inj_succ, N.pow_succ_r'. lia.
+    + cbn [digits]. replace ((polymod_from 0 l * 32 + s) / 32) with (polymod_from 0 l) by lia.
+      replace ((polymod_from 0 l * 32 + s) mod 32) with s by lia. rewrite D. reflexivity.
+Qed.
+
+Lemma syms12_digits X : syms12 X = digits 12 X.
+Proof.
+  unfold syms12, idx12. cbn [map digits app].
+  repeat (f_equal; [change 31 with (N.ones 5); rewrite N.land_ones, N.shiftr_div_pow2, ?N.div_div by discriminate; reflexivity|]).
+  f_equal. change (5 * (11 - 11)) with 0. rewrite N.shiftr_0_r. change 31 with (N.ones 5). apply N.land_ones.
+Qed.
+
+Lemma xor_list_zeros l : xor_list (repeat 0 (length l)) l = l.
+Proof. induction l as [|a l IH]; cbn [length repeat xor_list]; [reflexivity|]. rewrite N.lxor_0_l, IH. reflexivity. Qed.
+
+Lemma ints_inj a b : ints a = ints b -> a = b.
+Proof.
+  revert b; induction a as [|x a IH]; intros [|y b] H; cbn in H; try discriminate; [reflexivity|].
+  inversion H as [[H1 H2]]. apply n8_inj in H1. apply IH in H2. congruence.
+Qed.
+
+Theorem checksum_unique hrp data chk e : length chk = 12%nat -> Forall (fun b => n8 b < 32) chk ->
+  polymod (hrp_expand hrp ++ ints (data ++ chk)) = e -> create_checksum hrp data e = chk.
+Proof.
+  intros L F PM. unfold create_checksum. apply ints_inj. rewrite ints_checksum_symbols.
+  assert (Fi : Forall (fun v => v < 32) (ints chk)).
+  { unfold ints. apply Forall_forall. intros v Hv. apply in_map_iff in Hv as [b [<- Hb]].
+    rewrite Forall_forall in F. apply F. exact Hb. }
+  assert (Li : length (ints chk) = 12%nat) by (unfold ints; rewrite map_length; exact L).
+  destruct (pack_digits (ints chk) ltac:(lia) Fi) as [_ D]. rewrite Li in D.
+  rewrite syms12_digits, <- D. f_equal.
+  unfold ints in PM at 1. rewrite map_app in PM. fold (ints data) in PM. fold (ints chk) in PM.
+  unfold polymod in *. rewrite app_assoc, polymod_from_app in PM. rewrite !app_assoc, polymod_from_app.
+  set (c := polymod_from 1 (hrp_expand hrp ++ ints data)) in *.
+  rewrite <- (xor_list_zeros (ints chk)), Li in PM.
+  rewrite <- (N.lxor_0_r c) in PM at 1. rewrite polymod_linear in PM by (rewrite Li; reflexivity).
+  apply lxor_move. exact PM.
+Qed.
+
+Theorem decode_encode s hrp data : decode s = DOk hrp data ->
+  exists v r e, data = v :: r /\ encoding_of_version v = Some e /\ encode hrp data e = Some (map to_lower s).
+Proof.
+  intro D. destruct (accepted_shape s hrp data D) as (syms & cs & TC & Sh & LH & Ed).
+  apply accepted_case_spellings in D as [D _]. rewrite Sh, (decode_canon _ _ _ TC LH) in D.
+  unfold decode_spec in D. destruct (pre hrp (length syms)) eqn:P; [|discriminate]. cbn [negb] in D.
+  destruct (Nat.eqb_spec (length syms) 12) as [E12|N12]; [discriminate|].
+  destruct syms as [|v r0] eqn:Es; [discriminate|]. rewrite <- Es in *.
+  destruct (encoding_of_version v) as [e|] eqn:Ev; [|discriminate].
+  destruct (N.eqb_spec (polymod (hrp_expand hrp ++ ints syms)) e) as [PM|]; [|discriminate].
+  apply pre_bound in P as [B12 _].
+  assert (Split : syms = data ++ skipn (length syms - 12) syms) by (rewrite Ed; symmetry; apply firstn_skipn).
+  assert (Lc : length (skipn (length syms - 12) syms) = 12%nat) by (rewrite skipn_length; lia).
+  assert (Fc : Forall (fun b => n8 b < 32) (skipn (length syms - 12) syms)).
+  { pose proof (to_chars_sym_lt _ _ TC) as F. rewrite <- (firstn_skipn (length syms - 12) syms) in F.
+    apply Forall_app in F. tauto. }
+  rewrite Split in PM at 1.
+  pose proof (checksum_unique hrp data _ e Lc Fc PM) as CU.
+  assert (Dv : exists r, data = v :: r).
+  { rewrite Ed, Es. replace (length (v :: r0) - 12)%nat with (S (length r0 - 12)) by (rewrite Es in *; cbn [length] in *; lia).
+    cbn [firstn]. eexists; reflexivity. }
+  destruct Dv as [r Dv]. exists v, r, e. split; [exact Dv|]. split; [exact Ev|].
+  unfold encode. rewrite CU, <- Split, TC, Sh. reflexivity.
+Qed.
+
+Lemma decode_data_syms s hrp data : decode s = DOk hrp data -> Forall (fun b => n8 b < 32) data.
+Proof.
+  intro D. destruct (accepted_shape s hrp data D) as (syms & cs & TC & _ & _ & ->).
+  pose proof (to_chars_sym_lt _ _ TC) as F. rewrite <- (firstn_skipn (length syms - 12) syms) in F.
+  apply Forall_app in F. tauto.
+Qed.
+
+Lemma sep_lower x : beqb (to_lower x) sep = beqb x sep.
+Proof. destruct x; reflexivity. Qed.
+
+Lemma last_index_lower s : last_index sep (map to_lower s) = last_index sep s.
+Proof.
+  unfold last_index. generalize O (@None nat). induction s as [|x s IH]; intros i acc; cbn [map last_index_from]; [reflexivity|].
+  rewrite sep_lower. apply IH.
+Qed.
